@@ -75,13 +75,33 @@ def describe(t):
   if t.kind == "fixed":
     return "fixed(bits=%d,int=%d,%s)" % (t.bits, t.int_bits, "s" if t.signed else "u")
   if t.kind == "po2":
-    return "po2(bits=%d,%s,max=%s)" % (t.bits, "s" if t.signed else "u", t.max_val)
+    return "po2(bits=%d,%s,max=%s)" % (t.bits, "s" if t.signed else "u", fmt(t.max_val))
   if t.kind == "float":
     return "float%d" % t.bits
   return "%s(bits=%d,int=%d)" % (t.kind, t.bits, t.int_bits)
 
 
 # ------------------------------------------------------------ helpers
+def fmt(v):
+  """Compact exact text of a Fraction: plain when short, else m*2^e."""
+  if v is None:
+    return "None"
+  v = Fraction(v)
+  s = str(v)
+  if len(s) <= 24:
+    return s
+  n, d = v.numerator, v.denominator
+  if d & (d - 1) == 0:
+    e = -(d.bit_length() - 1)
+    while n and n % 2 == 0:
+      n //= 2
+      e += 1
+    s = "%d*2^%d" % (n, e)
+    if len(s) <= 60:
+      return s
+  return s[:28] + "...(%d digits)" % len(s)
+
+
 @functools.lru_cache(maxsize=None)
 def p2(e):
   """2^e exactly."""
@@ -394,6 +414,9 @@ def from_reported(q):
     return ternary(bits, int_bits)
   if cls in _BINARY:
     return b01(bits, int_bits) if getattr(q, "use_01", False) else bpm(bits, int_bits)
+  if cls == "QuantizedRelu" and bits == 1 and int_bits == 1 and not signed:
+    # qtools documents quantized_relu(1,1) as the binary 0/1 type (same lattice {0,1})
+    return b01(bits, int_bits)
   return fixed(bits, int_bits, signed)
 
 
